@@ -22,7 +22,6 @@ from tcpsink import enc, prefix_of, BAD
 
 BASE = {"e": "", "seq": -1, "sz": -1, "fl": -1, "n": -1, "dr": -1, "re": -1, "ctx": -1, "ack": -1, "k": -1,
         "nfr": -1, "la": -1, "ns": -1, "pre": -1, "type": ""}
-MAX_EVENTS = 4000
 
 
 class Runaway(BaseException):
@@ -53,12 +52,15 @@ def run_one(sc):
     fid = sc.get("fid", 1)
     env = Environment()
     ev, tm = [], []
+    # a run that completes needs far fewer events (about a quarter of this on every scenario tried); a sender and sink
+    # that keep answering each other for ever are cut off here and the trace ends in an X event
+    limit = 60 + 24 * n + 24 * (len(dd) + len(ad))
     premise = [True]
     st = {"inside": False, "nfr": 0, "sender": None}
     sent_before = set()
 
     def log(**kw):
-        if len(ev) >= MAX_EVENTS:
+        if len(ev) >= limit:
             raise Runaway()
         ev.append(dict(BASE, **kw))
         tm.append(env.now)
